@@ -130,26 +130,11 @@ func (e *env) config(name string) string {
 	panic("unknown config " + name)
 }
 
+// listenInodes lists the listening TCP sockets of the process as "port x descriptors".
 func listenInodes() []string {
-	mine := map[string]bool{}
-	fds, _ := os.ReadDir("/proc/self/fd")
-	for _, fd := range fds {
-		if l, err := os.Readlink("/proc/self/fd/" + fd.Name()); err == nil && strings.HasPrefix(l, "socket:[") {
-			mine[strings.TrimSuffix(strings.TrimPrefix(l, "socket:["), "]")] = true
-		}
-	}
 	var out []string
-	for _, f := range []string{"/proc/self/net/tcp", "/proc/self/net/tcp6"} {
-		data, err := os.ReadFile(f)
-		if err != nil {
-			continue
-		}
-		for _, line := range strings.Split(string(data), "\n")[1:] {
-			fs := strings.Fields(line)
-			if len(fs) > 9 && fs[3] == "0A" && mine[fs[9]] {
-				out = append(out, fs[1]+"#"+fs[9])
-			}
-		}
+	for port := range kit.ListeningFDs() {
+		out = append(out, fmt.Sprint(port))
 	}
 	sort.Strings(out)
 	return out
@@ -157,17 +142,8 @@ func listenInodes() []string {
 
 func listenFDCount() int {
 	n := 0
-	fds, _ := os.ReadDir("/proc/self/fd")
-	listen := map[string]bool{}
-	for _, s := range listenInodes() {
-		listen[strings.SplitN(s, "#", 2)[1]] = true
-	}
-	for _, fd := range fds {
-		if l, err := os.Readlink("/proc/self/fd/" + fd.Name()); err == nil && strings.HasPrefix(l, "socket:[") {
-			if listen[strings.TrimSuffix(strings.TrimPrefix(l, "socket:["), "]")] {
-				n++
-			}
-		}
+	for _, c := range kit.ListeningFDs() {
+		n += c
 	}
 	return n
 }
